@@ -366,3 +366,168 @@ def _eq(a, b):
     return a == b
 
 
+
+
+# ---------------------------------------------------------------------------
+# C13.1: TwoLevel forward phase for an unbounded symbolic period
+
+def h_twolevel_fwd(ctx, K):
+    import checkpoint_schedules as cs
+    from checkpoint_schedules.schedule import StorageType
+    p = ctx.int("period", 1, None)
+    b = ctx.int("b", 0, None)
+    st = ctx.choice("storage", [StorageType.RAM, StorageType.DISK])
+    traj = ctx.choice("trajectory", ["maximum", "revolve"])
+    sched = cs.TwoLevelCheckpointSchedule(p, b, binomial_storage=st, binomial_trajectory=traj)
+    for k in range(K):
+        o = _next_obs(sched)
+        ctx.trace(("fwd", o))
+        exp = ("action", "Forward", k * p, (k + 1) * p, True, False, "DISK")
+        ctx.require(_same(ctx, o, exp), "C13.forward_phase", lambda: {"k": k, "got": o, "expected": exp})
+        ctx.require(sym_and(sched.n == (k + 1) * p, sched.max_n is None, sched.r == 0),
+                    "C13.forward_phase", lambda: {"k": k, "n": sched.n})
+    ctx.cover("__nontrivial__")
+
+
+# ---------------------------------------------------------------------------
+# C14: Multistage RAM/disk split
+
+def _multistage_stream(n, ram, disk, traj):
+    import checkpoint_schedules as cs
+    sched = cs.MultistageCheckpointSchedule(n, ram, disk, trajectory=traj)
+    out = []
+    for a in sched:
+        k = action_kind(a)
+        out.append((k,) + tuple(st_name(x) if st_name(x) else x for x in a.args))
+        if k == "EndReverse":
+            break
+    return out, sched
+
+
+def h_split(ctx, n):
+    """All splits (a, s-a) of s units, same n and trajectory, inside one path."""
+    silence_repo_output()
+    s = ctx.int("s", 1, n + 1, eager=True)
+    traj = ctx.choice("trajectory", ["maximum", "revolve"])
+    streams = {}
+    for a in range(0, s + 1):
+        try:
+            streams[a], _ = _multistage_stream(n, a, s - a, traj)
+        except PathAbort:
+            raise
+        except Exception as e:                              # noqa: BLE001
+            ctx.fail("C14.raises", {"n": n, "ram": a, "disk": s - a, "exc": repr(e)})
+
+    def erase(stream):
+        return [tuple("*" if x in ("RAM", "DISK") else x for x in act) for act in stream]
+    base = erase(streams[0])
+    ctx.trace(("base", tuple(base)))
+    depths = min(s, n - 1)
+    for a, stream in streams.items():
+        info = lambda: {"n": n, "s": s, "ram": a, "disk": s - a, "trajectory": traj}  # noqa: E731
+        ctx.require(erase(stream) == base, "C14.labels_only", info)
+        # follow the checkpoint stack: storage and access weight per depth
+        stack = []
+        label = {}
+        w = {}
+        consistent = True
+        for act in stream:
+            if act[0] == "Forward" and act[3]:
+                d = len(stack)
+                stack.append(act[1])
+                if label.setdefault(d, act[5]) != act[5]:
+                    consistent = False
+                w[d] = w.get(d, 0) + 1
+            elif act[0] in ("Copy", "Move"):
+                d = len(stack) - 1
+                if d < 0 or stack[d] != act[1] or label.get(d) != act[2]:
+                    consistent = False
+                    break
+                w[d] = w.get(d, 0) + 1
+                if act[0] == "Move":
+                    stack.pop()
+        ctx.require(consistent, "C14.depth_keeps_storage", info)
+        n_ram = sum(1 for d in label if label[d] == "RAM")
+        ctx.require(n_ram <= a, "C14.ram_units", lambda: dict(info(), ram_depths=n_ram))
+        disk_acc = sum(w[d] for d in label if label[d] == "DISK")
+        ws = sorted(w.values(), reverse=True)
+        best = sum(ws) - sum(ws[:min(a, len(ws))])
+        if s - a == 0:
+            pass        # no disk unit declared: everything must be in RAM anyway
+        ctx.require(disk_acc == best, "C14.min_disk_traffic",
+                    lambda: dict(info(), disk_accesses=disk_acc, minimum=best, weights=ws))
+        ctx.require(len(label) <= depths or n == 1, "C14.depths", info)
+    ctx.trace(("streams", tuple((a, tuple(v)) for a, v in sorted(streams.items()))))
+    if n > 2:
+        ctx.cover("__nontrivial__")
+
+
+# ---------------------------------------------------------------------------
+# C16: tabulated (numba) planner vs memoised planner
+
+def h_numba_table(ctx, n):
+    from checkpoint_schedules import mixed
+    s = ctx.int("s", min(1, n - 1), n + 1)
+    try:
+        tab = mixed.mixed_steps_tabulation(n, s)
+    except PathAbort:
+        raise
+    except Exception as e:                                  # noqa: BLE001
+        ctx.fail("C16.table_raises", {"n": n, "s": s, "exc": repr(e)})
+    s = int(s)
+    bad = []
+    cells = 0
+    for n_i in range(1, n + 1):
+        for s_i in range(min(1, n_i - 1), s + 1):
+            cells += 1
+            memo = mixed.mixed_step_memoization(n_i, s_i)
+            t = tuple(int(x) for x in tab[n_i, s_i, :])
+            if t != (int(memo[0]), int(memo[1]), int(memo[2])):
+                bad.append(((n_i, s_i), t, tuple(int(x) for x in memo)))
+    ctx.trace(("cells", cells, tuple(bad[:3])))
+    ctx.require(not bad, "C16.table", lambda: {"n": n, "s": s, "first_differences": bad[:3]})
+    if n > 2:
+        ctx.cover("__nontrivial__")
+
+
+def _mixed_stream(n, s, storage, force_numba):
+    import checkpoint_schedules as cs
+    from checkpoint_schedules.schedule import StorageType
+    m = sys.modules["checkpoint_schedules.mixed"]
+    old = m.numba
+    m.numba = True if force_numba else None
+    try:
+        sched = cs.MixedCheckpointSchedule(n, s, storage=getattr(StorageType, storage))
+        out = []
+        for a in sched:
+            k = action_kind(a)
+            out.append((k,) + tuple(st_name(x) if st_name(x) else x for x in a.args))
+            if len(out) > 100000:
+                break
+        return out
+    finally:
+        m.numba = old
+
+
+def h_numba_stream(ctx, n):
+    silence_repo_output()
+    s = ctx.int("s", min(1, n - 1), None)
+    storage = ctx.choice("storage", ["RAM", "DISK"])
+    res = {}
+    for force in (False, True):
+        try:
+            res[force] = _mixed_stream(n, s, storage, force)
+        except PathAbort:
+            raise
+        except Exception as e:                              # noqa: BLE001
+            ctx.fail("C16.stream_raises", {"n": n, "s": s, "numba_path": force, "exc": repr(e)})
+    a, b = res[False], res[True]
+    ctx.trace(("streams", tuple(a), tuple(b)))
+    k = 0
+    while k < min(len(a), len(b)) and a[k] == b[k]:
+        k += 1
+    ctx.require(len(a) == len(b) == k, "C16.stream",
+                lambda: {"n": n, "s": s, "first_difference_at": k,
+                         "memoised": a[k:k + 2], "tabulated": b[k:k + 2]})
+    if n > 2:
+        ctx.cover("__nontrivial__")
